@@ -1616,8 +1616,17 @@ class Wtp:
                                 name, None
                             )
                             if template_page is not None:
-                                template_page.body = self._template_to_body(
-                                    name, template_page.body
+                                # Page objects are shared through the
+                                # get_page() memo: work on a copy
+                                template_page = Page(
+                                    title=template_page.title,
+                                    namespace_id=template_page.namespace_id,
+                                    redirect_to=template_page.redirect_to,
+                                    need_pre_expand=template_page.need_pre_expand,
+                                    body=self._template_to_body(
+                                        name, template_page.body
+                                    ),
+                                    model=template_page.model,
                                 )
                         if (
                             template_page is not None
